@@ -182,9 +182,9 @@ func (n *Node[K, V]) delete(b *BsTree[K, V], key K) (*Node[K, V], error) {
 // Traverse iterates over the tree structure and invokes the callback function provided as a parameter.
 func (b *BsTree[K, V]) Traverse(fn func(Item[K, V])) {
 	ch := make(chan Item[K, V])
-	n := b.root
 	go func() {
 		b.mu.RLock()
+		n := b.root
 		n.traverse(b, ch)
 		b.mu.RUnlock()
 
